@@ -1935,3 +1935,105 @@ mod test {
         );
     }
 }
+
+// Verification hook H3 (read-only, add-only): see page_store/verif/snapshot.rs
+#[cfg(redb_verif)]
+impl UncommittedPages {
+    fn verif_pages(&self) -> Vec<PageNumber> {
+        let mut result = vec![];
+        for shard in &self.shards {
+            result.extend(shard.0.lock().unwrap().iter().copied());
+        }
+        result
+    }
+}
+
+#[cfg(redb_verif)]
+impl PageAllocator {
+    pub(crate) fn verif_allocated_since_commit(&self) -> Vec<PageNumber> {
+        self.allocated_since_commit.verif_pages()
+    }
+}
+
+#[cfg(redb_verif)]
+impl TransactionalMemory {
+    pub(crate) fn verif_snapshot(&self) -> crate::verif::VMem {
+        use crate::verif::{VMem, VPage, VRegion, VSlot, VUnpersisted, vlayout_of, vpages};
+
+        let unpersisted = {
+            let u = self.unpersisted.lock().unwrap();
+            let mut allocation_txn: Vec<(VPage, u64)> = u
+                .allocation_txn
+                .iter()
+                .map(|(p, t)| (VPage::of(*p), t.raw_id()))
+                .collect();
+            allocation_txn.sort();
+            VUnpersisted {
+                pages: vpages(u.pages.iter().copied()),
+                allocations: u
+                    .allocations
+                    .iter()
+                    .map(|(t, pages)| (t.raw_id(), vpages(pages.iter().copied())))
+                    .collect(),
+                allocation_txn,
+                data_freed: u
+                    .data_freed
+                    .iter()
+                    .map(|(t, pages)| (t.raw_id(), pages.iter().map(|p| VPage::of(*p)).collect()))
+                    .collect(),
+                post_commit_allocations: vpages(u.post_commit_allocations.iter().copied()),
+            }
+        };
+
+        let state = self.state.lock().unwrap();
+        let mut regions = vec![];
+        let mut region_tracker_bytes = vec![];
+        let mut allocated_page_count = 0u64;
+        if let Some(allocators) = state.allocators.as_ref() {
+            region_tracker_bytes = allocators.region_tracker.to_vec();
+            for allocator in &allocators.region_allocators {
+                let free_blocks = allocator.verif_free_blocks();
+                let mut is_free = vec![false; allocator.len() as usize];
+                for (index, order) in &free_blocks {
+                    let n = 1u32 << order;
+                    for i in (index * n)..((index + 1) * n) {
+                        is_free[i as usize] = true;
+                    }
+                }
+                let allocated_order0 = (0..allocator.len())
+                    .filter(|i| !is_free[*i as usize])
+                    .collect();
+                allocated_page_count += u64::from(allocator.count_allocated_pages());
+                regions.push(VRegion {
+                    num_pages: allocator.len(),
+                    max_order: allocator.get_max_order(),
+                    free_blocks,
+                    allocated_order0,
+                    bytes: allocator.to_vec(),
+                });
+            }
+        }
+        #[cfg(debug_assertions)]
+        let debug_allocated = Some(vpages(self.allocated_pages.lock().unwrap().iter().copied()));
+        #[cfg(not(debug_assertions))]
+        let debug_allocated = None;
+
+        VMem {
+            page_size: self.page_size,
+            layout: vlayout_of(&state.header.layout()),
+            allocators_loaded: state.allocators.is_some(),
+            regions,
+            region_tracker_bytes,
+            primary: VSlot::of(state.header.primary_slot()),
+            secondary: VSlot::of(state.header.secondary_slot()),
+            read_from_secondary: state.read_from_secondary,
+            header_two_phase_commit: state.header.two_phase_commit,
+            header_recovery_required: state.header.recovery_required,
+            unpersisted,
+            needs_repair: self.needs_repair(),
+            storage_failure: self.storage.check_io_errors().is_err(),
+            allocated_page_count,
+            debug_allocated,
+        }
+    }
+}
